@@ -61,7 +61,7 @@ theorem yields_coin (thr : UInt64) :
   intro k src ts
   simp only [coin, run_draw_group]
   cases h : src.next 53 with
-  | none => right; exact ⟨_, rfl, Or.inl rfl⟩
+  | none => right; exact ⟨_, rfl, Or.inl rfl, rfl⟩
   | some r =>
     obtain ⟨u, src'⟩ := r
     left
@@ -105,7 +105,7 @@ theorem yields_intRange_flags (ft : FT) (min max : Int64) (fuel : Nat) (hmm : mi
           k (-(u.toInt64), r, (l && fr))
       else
         uintRange ft (if min ≥ 0 then min.toUInt64 else 0) max.toUInt64 true fuel fun u l r =>
-          k (u.toInt64, (l && fl), r)) src ts with ⟨neg, ⟨hnev, halw⟩, src1, u1, k1, t1, ov1, hne1, hrun⟩ | ⟨e, he, hk⟩
+          k (u.toInt64, (l && fl), r)) src ts with ⟨neg, ⟨hnev, halw⟩, src1, u1, k1, t1, ov1, hne1, hrun⟩ | ⟨e, he, hk, hev⟩
   · rw [hrun]
     by_cases hmin : min ≥ 0
     · -- non-negative range: the coin is never true
@@ -121,7 +121,7 @@ theorem yields_intRange_flags (ft : FT) (min max : Int64) (fuel : Nat) (hmm : mi
         have := min.toBitVec.isLt; have := max.toBitVec.isLt
         omega
       rcases yields_uintRange_flags ft min.toUInt64 max.toUInt64 true fuel hle
-          (fun x => k (x.1.toInt64, (x.2.1 && fl), x.2.2)) src1 ts with ⟨a, ⟨⟨ha1, ha2⟩, hafl, hafr⟩, src2, u2, k2, t2, ov2, _, hr2⟩ | ⟨e, he, hk⟩
+          (fun x => k (x.1.toInt64, (x.2.1 && fl), x.2.2)) src1 ts with ⟨a, ⟨⟨ha1, ha2⟩, hafl, hafr⟩, src2, u2, k2, t2, ov2, _, hr2⟩ | ⟨e, he, hk, hev⟩
       · left
         refine ⟨(a.1.toInt64, _, _), ⟨?_, ?_, ?_⟩, src2, _, _, _, _, ?_, by have h := hr2; dsimp only at h; rw [h, after_after0]⟩
         rotate_left
@@ -138,7 +138,7 @@ theorem yields_intRange_flags (ft : FT) (min max : Int64) (fuel : Nat) (hmm : mi
         simp only [Int64.le_iff_toInt_le, i64_toInt, UInt64.toBitVec_toInt64]
         exact this
       · right
-        exact ⟨e, by have h := he; dsimp only at h; simp only [after_res]; exact h, hk⟩
+        exact ⟨e, by have h := he; dsimp only at h; simp only [after_res]; exact h, hk, by have h := hev; dsimp only at h; simp only [after_evs, h, List.append_nil]⟩
     · simp only [hmin, if_false]
       have hminneg : min.toBitVec.toInt < 0 := by
         have : ¬ (0 : Int64).toInt ≤ min.toBitVec.toInt := fun h => hmin (Int64.le_iff_toInt_le.mpr h)
@@ -158,7 +158,7 @@ theorem yields_intRange_flags (ft : FT) (min max : Int64) (fuel : Nat) (hmm : mi
           have := min.toBitVec.isLt; have := max.toBitVec.isLt
           omega
         rcases yields_uintRange_flags ft (-max).toUInt64 (-min).toUInt64 true fuel hle
-            (fun x => k (-(x.1.toInt64), x.2.2, (x.2.1 && fr))) src1 ts with ⟨a, ⟨⟨ha1, ha2⟩, hafl, hafr⟩, src2, u2, k2, t2, ov2, _, hr2⟩ | ⟨e, he, hk⟩
+            (fun x => k (-(x.1.toInt64), x.2.2, (x.2.1 && fr))) src1 ts with ⟨a, ⟨⟨ha1, ha2⟩, hafl, hafr⟩, src2, u2, k2, t2, ov2, _, hr2⟩ | ⟨e, he, hk, hev⟩
         · left
           refine ⟨(-(a.1.toInt64), _, _), ⟨?_, ?_, ?_⟩, src2, _, _, _, _, ?_, by have h := hr2; dsimp only at h; rw [h, after_after0]⟩
           rotate_left
@@ -175,7 +175,7 @@ theorem yields_intRange_flags (ft : FT) (min max : Int64) (fuel : Nat) (hmm : mi
           simp only [Int64.le_iff_toInt_le, i64_toInt, Int64.toBitVec_neg, UInt64.toBitVec_toInt64]
           exact this
         · right
-          exact ⟨e, by have h := he; dsimp only at h; simp only [after_res]; exact h, hk⟩
+          exact ⟨e, by have h := he; dsimp only at h; simp only [after_res]; exact h, hk, by have h := hev; dsimp only at h; simp only [after_evs, h, List.append_nil]⟩
       · simp only [hmax, if_false]
         have hmaxpos : 0 < max.toBitVec.toInt := by
           have : ¬ max.toBitVec.toInt ≤ (0 : Int64).toInt := fun h => hmax (Int64.le_iff_toInt_le.mpr h)
@@ -184,7 +184,7 @@ theorem yields_intRange_flags (ft : FT) (min max : Int64) (fuel : Nat) (hmm : mi
         · simp only [Bool.false_eq_true, if_false]
           have hle : (0 : UInt64) ≤ max.toUInt64 := by rw [UInt64.le_iff_toNat_le]; simp
           rcases yields_uintRange_flags ft 0 max.toUInt64 true fuel hle
-              (fun x => k (x.1.toInt64, (x.2.1 && fl), x.2.2)) src1 ts with ⟨a, ⟨⟨_, ha2⟩, hafl, hafr⟩, src2, u2, k2, t2, ov2, _, hr2⟩ | ⟨e, he, hk⟩
+              (fun x => k (x.1.toInt64, (x.2.1 && fl), x.2.2)) src1 ts with ⟨a, ⟨⟨_, ha2⟩, hafl, hafr⟩, src2, u2, k2, t2, ov2, _, hr2⟩ | ⟨e, he, hk, hev⟩
           · left
             refine ⟨(a.1.toInt64, _, _), ⟨?_, ?_, ?_⟩, src2, _, _, _, _, ?_, by have h := hr2; dsimp only at h; rw [h, after_after0]⟩
             rotate_left
@@ -200,7 +200,7 @@ theorem yields_intRange_flags (ft : FT) (min max : Int64) (fuel : Nat) (hmm : mi
             simp only [Int64.le_iff_toInt_le, i64_toInt, UInt64.toBitVec_toInt64]
             exact this
           · right
-            exact ⟨e, by have h := he; dsimp only at h; simp only [after_res]; exact h, hk⟩
+            exact ⟨e, by have h := he; dsimp only at h; simp only [after_res]; exact h, hk, by have h := hev; dsimp only at h; simp only [after_evs, h, List.append_nil]⟩
         · simp only [if_true]
           have hle : (1 : UInt64) ≤ (-min).toUInt64 := by
             have h1 : (1 : UInt64).toNat = 1 := rfl
@@ -211,7 +211,7 @@ theorem yields_intRange_flags (ft : FT) (min max : Int64) (fuel : Nat) (hmm : mi
             have := min.toBitVec.isLt
             omega
           rcases yields_uintRange_flags ft 1 (-min).toUInt64 true fuel hle
-              (fun x => k (-(x.1.toInt64), x.2.2, (x.2.1 && fr))) src1 ts with ⟨a, ⟨⟨ha1, ha2⟩, hafl, hafr⟩, src2, u2, k2, t2, ov2, _, hr2⟩ | ⟨e, he, hk⟩
+              (fun x => k (-(x.1.toInt64), x.2.2, (x.2.1 && fr))) src1 ts with ⟨a, ⟨⟨ha1, ha2⟩, hafl, hafr⟩, src2, u2, k2, t2, ov2, _, hr2⟩ | ⟨e, he, hk, hev⟩
           · left
             refine ⟨(-(a.1.toInt64), _, _), ⟨?_, ?_, ?_⟩, src2, _, _, _, _, ?_, by have h := hr2; dsimp only at h; rw [h, after_after0]⟩
             rotate_left
@@ -230,9 +230,9 @@ theorem yields_intRange_flags (ft : FT) (min max : Int64) (fuel : Nat) (hmm : mi
             simp only [Int64.le_iff_toInt_le, i64_toInt, Int64.toBitVec_neg, UInt64.toBitVec_toInt64]
             exact this
           · right
-            exact ⟨e, by have h := he; dsimp only at h; simp only [after_res]; exact h, hk⟩
+            exact ⟨e, by have h := he; dsimp only at h; simp only [after_res]; exact h, hk, by have h := hev; dsimp only at h; simp only [after_evs, h, List.append_nil]⟩
   · right
-    exact ⟨e, he, hk⟩
+    exact ⟨e, he, hk, hev⟩
 
 theorem yields_intRange (ft : FT) (min max : Int64) (fuel : Nat) (hmm : min ≤ max) :
     Yields (fun (k : Int64 × Bool × Bool → Prog) => intRange ft min max fuel (fun i l r => k (i, l, r)))
